@@ -70,7 +70,8 @@ Remove(ts, pk) ==
         old == EntOf(ts.objs, pk) IN
     [ts EXCEPT !.rev = r,
                !.objs = DelEnt(ts.objs, pk),
-               !.grave = Append(ts.grave, [pk |-> pk, val |-> old.o.val, rev |-> r])]
+               \* tracked: a delete tracker was registered, so the implementation keeps the object in its graveyard
+               !.grave = Append(ts.grave, [pk |-> pk, val |-> old.o.val, rev |-> r, tracked |-> ts.trk # {}])]
 
 TDelete(ts, o) ==
     LET had == HasPk(ts.objs, o.pk) IN
